@@ -1012,13 +1012,40 @@ def r4(report, db, P, classes=(), versions=()):
         report.ok(R, 'Packet.id (a descriptor object) reads as '
                   'get_id(context) for %d class x version pairs' % n)
         return
-    txt = ast.unparse(idp.node)
-    if 'self.get_id(self.context)' in txt:
-        report.ok(R, 'Packet.id -> self.get_id(self.context)')
-    else:
-        report.violation(R, 'write:id-property', idp.path, idp.node,
-                         idp.qualname, 'Packet.id does not resolve through '
-                         'get_id(self.context)')
+    # decided by evaluation, not by how the getter is spelt: the getter is
+    # folded on an instance of every registered class with the context of
+    # every version and must give what get_id(context) gives
+    from ..fold import Instance, FuncVal, Env, FoldRaise
+    n = 0
+    for cv in sorted(classes, key=lambda c: c.ci.fq):
+        ad = db.find_attr(cv.ci, 'id')
+        if ad is None or ad.kind != 'def' or db.find_method(
+                cv.ci, 'id') is not idp:
+            continue
+        for v in versions:
+            if not registered(P, cv, v):
+                continue
+            n += 1
+            inst = Instance(cv.ci, {'context': P.ctx(v)})
+            try:
+                w = P.F.call_func(FuncVal(idp), [inst], {}, idp.node,
+                                  Env(idp.module))
+            except FoldRaise as e:
+                w = Raises(e.exc_type, e.exc_args)
+            t = P.table_id(cv, v)
+            if w != t:
+                report.violation(
+                    R, 'write:id-property', idp.path, idp.node,
+                    idp.qualname, 'Packet.id does not resolve through '
+                    'get_id(self.context): an instance of %s reads id %r '
+                    'under protocol %s but get_id(context) gives %r'
+                    % (cv.ci.name, w, P.vname(v), t))
+                return
+    if n < 1000:
+        raise AnalysisError('Packet.id: only %d class x version ids could '
+                            'be folded through the property' % n)
+    report.ok(R, 'Packet.id reads as get_id(context) for %d class x version '
+              'pairs' % n)
 
 
 # ---------------------------------------------------------------------------
